@@ -278,6 +278,9 @@ def _sigeq(a, b):
     return a == b
 
 
+CURRENT = None     # the Check of this process (bin/check finishes it when the check's own code fails after violations were found)
+
+
 class Check:
     """One run of one property's check: accumulates coverage, violations, findings; writes evidence; exits."""
 
@@ -294,6 +297,8 @@ class Check:
         self.drift = []
         self.kf = KnownFindings()
         self._distinct = set()
+        global CURRENT
+        CURRENT = self
 
     # -- coverage helpers
     def add_tlc(self, name, r, note=""):
